@@ -12,7 +12,7 @@ def parseRes : String → Res
   | "nil" => .ok | "eof" => .eof | "cancelled" => .cancelled | "timer" => .timer | "post" => .post | _ => .err
 
 def parseKind : String → ObjKind
-  | "tcp" | "fifo" => .stream | "regular" => .regular | "adapter" => .adapter | "listener" => .listener
+  | "tcp" | "fifo" | "fifow" => .stream | "regular" => .regular | "adapter" => .adapter | "listener" => .listener
   | "packet" | "mpeer" => .packet | _ => .timer
 
 def opOf (toks : List String) : Option Nat := (Driver.attr? toks "op").bind nat?
